@@ -263,7 +263,9 @@ func runC15(c *core.Ctx, o Options) {
 		})
 	}
 	c.Check(nCT >= 1, "U3", "", "stores to CloseTimeout found", 0, fmt.Sprint(nCT), "no store to LogonSettings.CloseTimeout found (the Logon handler's replacement was confirmed)")
-	c.RuleMin = map[string]int{"M1": 3, "U1": 3, "U2": 1, "U3": 3, "U4": 4, "U5": 3, "U6": 5}
+	s.checkStateReadAfterDecode("U7")
+	c.Explanation += " U7: in every inbound handler the state a branch tests is read after the message has been decoded (no Unmarshal between the read and the test): a snapshot taken before the decode misses a Stop()/Logout() that lands meanwhile."
+	c.RuleMin = map[string]int{"M1": 3, "U1": 3, "U2": 1, "U3": 3, "U4": 4, "U5": 3, "U6": 5, "U7": 6}
 	c.MinObl = 12
 }
 
@@ -294,31 +296,9 @@ func checkEventPool(c *core.Ctx, rule string) {
 	if !c.Anchor("event pool", handle != nil && trigger != nil, "utils.EventHandlerPool.Handle/Trigger", posOf(handle)) {
 		return
 	}
-	// Handle: pool[e] = append(pool[e], handle) — the new callback is the last element
-	okAppend := false
-	an.AllInstrs(handle, func(in ssa.Instruction) {
-		mu, ok := in.(*ssa.MapUpdate)
-		if !ok {
-			return
-		}
-		r := an.Render(mu.Value)
-		if strings.HasPrefix(r, "append(evp.pool[e], ") && strings.Contains(r, "handle") {
-			okAppend = true
-		}
-	})
-	// the slice literal holding `handle` — accept any append whose first operand is the existing slice
-	if !okAppend {
-		an.AllInstrs(handle, func(in ssa.Instruction) {
-			if call, ok := in.(*ssa.Call); ok {
-				if b, ok := call.Call.Value.(*ssa.Builtin); ok && b.Name() == "append" && len(call.Call.Args) == 2 {
-					if an.Render(call.Call.Args[0]) == "evp.pool[e]" {
-						okAppend = true
-					}
-				}
-			}
-		})
-	}
-	c.Check(okAppend, rule, "EventHandlerPool.Handle", "appends the callback after the existing ones", handle.Pos(), "pool[e] = append(pool[e], handle)", "Handle does not append to the existing list (registration order would be lost)")
+	// Handle: every update of the pool's map appends the new callback at the end of the event's list (directly, or through a
+	// helper that returns an ordered copy plus one)
+	checkEventPoolUpdates(c, rule)
 	// Trigger: range over the slice in index order; return on first false
 	var rng *ssa.Phi
 	okOrder, okStop, calls := false, false, 0
